@@ -20,6 +20,7 @@ package main
 import (
 	"fmt"
 	"strings"
+	"time"
 
 	"github.com/blinklabs-io/gouroboros/cbor"
 	"github.com/blinklabs-io/gouroboros/ledger/babbage"
@@ -32,7 +33,7 @@ import (
 )
 
 func init() {
-	register(&Prop{ID: "C03", Gen: genC03, Run: runC03})
+	register(&Prop{ID: "C03", Gen: genC03, Run: runC03, Timeout: 60 * time.Second})
 }
 
 type sumVariant struct {
